@@ -316,7 +316,15 @@ func c17Run(w *W) {
 }
 
 func init() {
-	register(&Scenario{Name: "ownership", Prop: "C17", Horizon: time.Hour, Run: c17Run})
+	register(&Scenario{Name: "ownership", Prop: "C17", Horizon: time.Hour, Weight: 12, Run: c17Run})
+	// the ledger is active in every run of every check; these are the scenarios
+	// of other checks in which messages are retained (REQ retransmission) or
+	// shared (one publication queued for several pipes and matched by several
+	// SUB contexts) while connections are lost, run here so that C17 itself
+	// covers those owners (added after wave 5 of the seeded changes)
+	register(&Scenario{Name: "retained-request-ownership", Prop: "C17", Horizon: time.Hour, Weight: 2, Run: c04Stream})
+	register(&Scenario{Name: "shared-publication-ownership", Prop: "C17", Horizon: time.Hour, Weight: 2, Run: c06Stream})
+	register(&Scenario{Name: "shared-publication-contexts", Prop: "C17", Horizon: time.Hour, Weight: 3, Run: c06Sub})
 }
 
 // c17ReplyTimeout: REP / RESPONDENT / XREP with a send deadline and a
